@@ -28,6 +28,13 @@ Definition run_case0 (op : qop) (a b : plit) : outcome :=
   | QMul, LQ k v u, b => out_of (@py_mul F0 GEN (mkq k v u) (pv b))
   | QDiv, LQ k v u, b => out_of (@py_div F0 GEN (mkq k v u) (pv b))
   | QRMul, LN x, LQ k v u => out_of (@py_rmul F0 GEN x (mkq k v u))
+  (* number OP quantity: float.__op__ returns NotImplemented and Python looks for the reflected method of the quantity.  The described
+     classes define __rmul__ only (the translator rejects a class body with any method outside its table, so a class that grew an
+     __radd__ / __rsub__ / __rtruediv__ is not described at all): TypeError.  A reflected comparison is the mirrored method. *)
+  | QAdd, LN _, LQ _ _ _ => XErr TypeError
+  | QSub, LN _, LQ _ _ _ => XErr TypeError
+  | QDiv, LN _, LQ _ _ _ => XErr TypeError
+  | QCmp m, LN x, LQ k v u => out_of (@call F0 GEN (reflect_cmp m) (mkq k v u) (@PN F0 x))
   | QAbs, LQ k v u, _ => out_of (@py_abs F0 GEN (mkq k v u))
   | QNeg, LQ k v u, _ => out_of (@py_neg F0 GEN (mkq k v u))
   | QCmp m, LQ k v u, LQ k2 v2 u2 =>
